@@ -881,7 +881,32 @@ func registerC08() {
 	nTuples := 8 + 64 + 512 + 4096
 	rad := []int{nTuples, 3, 2}
 	nA := prod(rad...)
+	// family B: TWO cycles of one coordinator; the same shard reports another hash in both (its sidecar came back
+	// without the configuration after it had accepted the push): every time it is first sent the raw configuration
+	pushKinds := []string{"pushmatch", "pushdiffer", "pushreject", "push2fail"}
+	radB := []int{4, 4, 2, 3}
+	nB := prod(radB...)
 	direct := func(idx int) *Case {
+		if idx >= nA {
+			d := digits(idx-nA, radB...)
+			c := &Case{Name: "C08-B", Opt: Opt{MaxHead: 100, MaxProc: 150, Min: 0, Max: 99, IdleMin: 30}, Explore: map[uint64]*TStat{}}
+			mk := func(kind string) []ShardScript {
+				bad := okShard().with(100, up(20, 20, 5))
+				bad.HashMode = kind
+				good := okShard().with(101, up(20, 20, 5))
+				if d[2] == 1 {
+					return []ShardScript{good, bad}
+				}
+				return []ShardScript{bad, good}
+			}
+			c.Active = []ActiveT{{100, "job"}, {101, "job"}}
+			for h := uint64(1); h <= uint64(d[3]); h++ {
+				c.Active = append(c.Active, ActiveT{h, "job"})
+				c.Explore[h] = &TStat{Health: "up", Series: 10, Total: 10}
+			}
+			c.Cycles = [][]Replica{{{Shards: mk(pushKinds[d[0]])}}, {{Shards: mk(pushKinds[d[1]])}}}
+			return c
+		}
 		d := digits(idx, rad...)
 		t := d[0]
 		ln := 1
@@ -938,9 +963,10 @@ func registerC08() {
 	register(&propDef{
 		id: "C08",
 		rule: "same engine; directed list enumerates ALL tuples of shard kinds {ok, unready, status-GET fails, runtime-GET fails, push accepted->match, push accepted->still differs, push rejected, push accepted->second GET fails} over 1-4 positions x pending work {new targets, relief, scale-down} x idle mode; then random cases with a high share of unhealthy shards; the per-shard request log is judged; " +
+			"plus 96 two-cycle cases on one coordinator object in which the same shard reports another hash in both cycles (push kinds x push kinds x position x pending work); " +
 			"plus 1/4 closed loops (engine E2, real api.Get / api.Post over loopback): one shard lists 7000-16000 targets (status answer above 1.5 MiB), is reachable but reports another hash and rejects the push for two cycles: no target update to it, none of its targets given to the other shard, then it takes part again; " +
 			"non-trivial = at least one shard not in sync and at least one in sync, or a hash-mismatch shard; distinct = hash of the case with sizes bucketed",
-		judge: judgeC08, nDirect: nA, direct: direct,
+		judge: judgeC08, nDirect: nA + nB, direct: direct,
 		// closed loop (engine E2, real api.Get/api.Post): one shard with 7000-16000 targets, reachable and out of sync
 		nExtra:  map[string]int{"quick": e2.C08BigCases("quick"), "thorough": e2.C08BigCases("thorough")},
 		extra:   e2.RunC08Big,
